@@ -375,7 +375,10 @@ func (p *Program) Explore(opts RunOpts) (*RunResult, error) {
 					if v.Known == "" {
 						res.NUnknownViol++
 					}
-					if len(res.Violations) < 400 {
+					// violations inside a known finding are abundant: never let them crowd out new ones
+					if v.Known == "" && res.NUnknownViol <= 400 {
+						res.Violations = append(res.Violations, v)
+					} else if v.Known != "" && res.NViol-res.NUnknownViol <= 200 {
 						res.Violations = append(res.Violations, v)
 					}
 				}
